@@ -875,7 +875,7 @@ class vectorize_with_mpmath(vectorize_with_backend):
         self.extra_prec_multiplier = kwargs.pop("extra_prec_multiplier", 0)
         self.extra_prec = kwargs.pop("extra_prec", 0)
         flush_subnormals = kwargs.pop("flush_subnormals", UNSPECIFIED)
-        self.flush_subnormals = flush_subnormals if flush_subnormals is UNSPECIFIED else default_flush_subnormals
+        self.flush_subnormals = flush_subnormals if flush_subnormals is not UNSPECIFIED else default_flush_subnormals
         self._contexts = None
         self._contexts_inv = None
         super().__init__(*args, **kwargs)
